@@ -158,6 +158,15 @@ def run_real(desc):
     return True, None, None
 
 
+def _overridden_mapped_default(desc):
+    supplied = {n for n, _ in desc["inputs"]}
+    for f in desc["funcs"]:
+        mapped = {a[0] for a in (f["mapspec"]["inputs"] if f["mapspec"] else [])}
+        if any(p in mapped and p in supplied for p, _ in f["defaults"]):
+            return True
+    return False
+
+
 def cross_check(ctx, descs, mutations=MUTATIONS, mutants_per_case=None):
     """`descs`: mapgen descriptions (generated, i.e. valid by construction).  One driver batch, one real run per request."""
     rng = ctx.rng
@@ -208,6 +217,11 @@ def cross_check(ctx, descs, mutations=MUTATIONS, mutants_per_case=None):
         if conforms and not model_ok:
             ctx.violation(case, "Conforms holds but the model of map refuses the request (contradicts C01_never_refused)",
                           found_input=False, item="theorem:C01_never_refused", impl=None, model=r)
+            continue
+        if kind == "generated" and not conforms and r["failed"] == ["defaultsTyped"] and _overridden_mapped_default(desc):
+            # `Conforms` is sufficient, not necessary: it asks every DEFAULT of a mapped name to have the recorded shape, also when the
+            # inputs supply that name (the default is then never used).  Such requests are compared with the model as usual.
+            ctx.count("conforms:outside (overridden default of a mapped root has another shape)")
             continue
         if kind == "generated" and not conforms:
             ctx.violation(case, f"a request that is valid by construction does not satisfy Conforms (fails {r['failed']})",
